@@ -252,3 +252,27 @@ Proof.
   exact (conj (proj2 WisdomP.plain_string_path_replans) (conj (proj2 WisdomP.export_before_plan_replans)
         (conj (proj2 WisdomP.append_without_mkdir_replans) (proj1 WisdomP.append_without_mkdir_replans)))).
 Qed.
+
+(** * The initial phase-space record (open finding `initial-ps-record`; Proofs/DriverPS0P.v)
+
+    [C12_common_records_equal] leaves the phase-space rows out; this is why the statement cannot include them for the
+    program as it is: a model witness (integer instance; grid charge 6, cached integral 1 as after loading a file,
+    `renormalize = 1`) in which the t = 0 phase-space record of the `SavePhaseSpace = 0` run (written in the prologue) is
+    6 and that of the `SavePhaseSpace = 1` run (written in the first iteration, after the renormalisation) is 1, while
+    the two runs end in the same grid.  The same input fails on the binary (findings/C12-initial-ps-record.replay.json). *)
+From Inovesa Require Proofs.DriverPS0P.
+Theorem C12_initial_phase_space_record_refuted :
+  exists (K : kern) (c1 c2 : cfg) (s : st K) (rows : Z -> list (rec K) -> list (tG K)),
+    shared c1 c2 /\ rows 0 (file (run nosig c1 main_prog s)) <> rows 0 (file (run nosig c2 main_prog s)) /\
+    rows 0 (file (run nosig c1 main_prog s)) <> [] /\ rows 0 (file (run nosig c2 main_prog s)) <> [].
+Proof. exact DriverPS0P.initial_ps_record_refuted. Qed.
+Print Assumptions C12_initial_phase_space_record_refuted.
+(** ... the witness itself: same configuration but for SavePhaseSpace (0 / 1), same start state; the t = 0 phase-space
+    rows of the two files are [6] and [1]; the final grids agree *)
+Theorem C12_initial_phase_space_record_witness :
+  shared (DriverPS0P.ps0_cfg 0) (DriverPS0P.ps0_cfg 1) /\
+  DriverPS0P.ps_rows_at 0 (file (run nosig (DriverPS0P.ps0_cfg 0) main_prog DriverPS0P.ps0_start)) = [6] /\
+  DriverPS0P.ps_rows_at 0 (file (run nosig (DriverPS0P.ps0_cfg 1) main_prog DriverPS0P.ps0_start)) = [1] /\
+  g1 (run nosig (DriverPS0P.ps0_cfg 0) main_prog DriverPS0P.ps0_start) = g1 (run nosig (DriverPS0P.ps0_cfg 1) main_prog DriverPS0P.ps0_start).
+Proof. exact DriverPS0P.initial_ps_record_differs. Qed.
+Print Assumptions C12_initial_phase_space_record_witness.
